@@ -298,6 +298,9 @@ func supervise(args []string) int {
 		}
 		extraViol, extraNotes = v, notes
 	}
+	if *only != "" {
+		os.Setenv("MC_FAMILY", *only) // partial run: conclude skips the stale-finding note
+	}
 	return conclude(c, *tier, seed, results, crashes, extraViol, extraNotes, start, n)
 }
 
